@@ -17,6 +17,9 @@ CLAIMS = {
     "C05": ("model_checking", "TLC action property TargetsOnly/PrepUncorrelated on the kernel + code-vs-code spectator comparison on replayed behaviours",
             "TargetsOnly and PrepUncorrelated are action properties TLC checks on every transition of the kernel model; each behaviour is replayed and the simulator's spectator moments before/after the last operation are compared (entangled, displaced, mixed prior states; all target positions).",
             "§5 C05", "same behaviour set as C01; second moments only (Gaussian family)"),
+    "C06": ("model_checking", "MC_Meas.tla (exact Born law and conditional state of every dyne measurement; kernel laws MeasuredModeReset, ConditionalPhysical, CovIndependentOfOutcome) + post-selected and RNG-intercepted replays on every simulator, layout checks for every ordered tuple",
+            "For every pre-measurement lattice state TLC gives the exact Born mean/variance and conditional state of homodyne (4 angles x 3 values, every mode) and heterodyne measurements and the exact reduced state of every ordered tuple of modes; the harness post-selects on every simulator (conditional state, stored value, sample), intercepts numpy.random / thewalrus samplers (the distribution handed to the generator must be the Born law; a forced outcome must give the spec's conditional state), checks samples / samples_dict / RegRef.val layout for every ordered tuple and shots in {1,3}, and for Fock photon counting compares the probability vector, the conditional state of a forced joint outcome and the reset with its own projection of the pre-measurement state.",
+            "§5 C06", "statistical quality of the samplers not examined; photon-count conditionals are relational (harness projection), not lattice"),
     "C07": ("model_checking", "TLC invariants Physical/PhysicalDet and conservation action properties + physicality predicates on every replayed state",
             "Kernel invariants (symmetric, uncertainty minors, det >= 1) and action properties (unitary keeps purity, passive keeps photons, loss no gain) model-checked; every simulator state returned on the replayed behaviours is tested for symmetry, V+iOmega>=0, weights, trace<=1, Hermiticity, and the conservation laws code-vs-code.",
             "§5 C07", "same behaviour set as C01"),
